@@ -212,4 +212,37 @@ public final class BigIntOps {
         BigInteger v = h.isEmpty() ? BigInteger.ZERO : new BigInteger(h, 16);
         return v.equals(big(x)) ? BoolValue.ValTrue : BoolValue.ValFalse;
     }
+
+    @TLAPlusOperator(identifier = "IntToHex", module = "Hex", warn = false)
+    public static Value intToHex(Value x, Value len) {
+        int n = ((IntValue) len).val;
+        BigInteger v = big(x);
+        if (v.signum() < 0 || v.bitLength() > 8 * n) {
+            Assert.fail("Hex: IntToHex value does not fit " + n + " bytes: " + v.toString(16));
+        }
+        String h = v.toString(16);
+        StringBuilder sb = new StringBuilder(2 * n);
+        for (int i = h.length(); i < 2 * n; i++) {
+            sb.append('0');
+        }
+        sb.append(h);
+        return new StringValue(sb.toString());
+    }
+
+    /** bytes i .. j-1 (zero based) of the hex string; clipped to the string. */
+    @TLAPlusOperator(identifier = "HexSlice", module = "Hex", warn = false)
+    public static Value hexSlice(Value s, Value i, Value j) {
+        String h = str(s);
+        int a = Math.max(0, ((IntValue) i).val);
+        int b = Math.min(h.length() / 2, ((IntValue) j).val);
+        if (a >= b) {
+            return new StringValue("");
+        }
+        return new StringValue(h.substring(2 * a, 2 * b));
+    }
+
+    @TLAPlusOperator(identifier = "HexCat", module = "Hex", warn = false)
+    public static Value hexCat(Value s, Value t) {
+        return new StringValue(str(s) + str(t));
+    }
 }
